@@ -87,6 +87,9 @@ func BuildStructCodec(p CodecBuilder, registry CodecRegistry, typ reflect.Type, 
 		if err != nil {
 			return nil, fmt.Errorf("could not parse plenc tag on field %d %s of %s. %w", i, sf.Name, typ.Name(), err)
 		}
+		if index < 0 || index > maxFieldIndex {
+			return nil, fmt.Errorf("plenc index %d on field %d %s of %s is out of range (0 to %d)", index, i, sf.Name, typ.Name(), maxFieldIndex)
+		}
 
 		field := &c.fields[count]
 		count++
@@ -145,6 +148,10 @@ func BuildStructCodec(p CodecBuilder, registry CodecRegistry, typ reflect.Type, 
 
 	return &c, nil
 }
+
+// maxFieldIndex is the largest index a field can have. It is the protobuf
+// limit for field numbers.
+const maxFieldIndex = 1<<29 - 1
 
 type description struct {
 	offset uintptr
